@@ -5,6 +5,7 @@
 //   c11_checked --mode tab8 --policy <P|all> [--seed n] [--part i --parts n]
 //                                                   EXHAUSTIVE 8-bit tables (see grammar below)
 //   c11_checked --mode wide --seed n --count n      boundary-biased + random cases for 16/32/64 bits
+//   c11_checked --mode prog --seed n --count n      random straight-line coefficient computations, bounded vs mpz
 //   c11_checked --mode one <T> <P> <op> <dir> <to0> <x> <y> <e>    a single case (replay)
 //
 // Journal grammar (all integers decimal = the mathematical value of the operand in its type):
@@ -97,6 +98,19 @@ struct INF_Policy {
   const_bool_nodef(check_fpu_inexact, true);
   const_bool_nodef(check_fpu_nan_result, true);
   static void handle_result(Result) {}
+};
+
+// the bounded-coefficient policy with its real `handle_result` (Coefficient_inlines.hh) and defaults
+// (Coefficient_types.hh): used by `--mode prog` through the overloaded operators
+struct BICT_Policy : public BIC_Policy {
+  static const Rounding_Dir ROUND_DEFAULT_CONSTRUCTOR = ROUND_NATIVE;
+  static const Rounding_Dir ROUND_DEFAULT_OPERATOR = ROUND_NATIVE;
+  static const Rounding_Dir ROUND_DEFAULT_INPUT = ROUND_NATIVE;
+  static const Rounding_Dir ROUND_DEFAULT_OUTPUT = ROUND_NATIVE;
+  static const Rounding_Dir ROUND_DEFAULT_FUNCTION = ROUND_NATIVE;
+  static void handle_result(Result r) {
+    if (result_overflow(r) || result_class(r) == VC_NAN) throw_result_exception(r);
+  }
 };
 
 template <typename T> struct CO { typedef Check_Overflow_Policy<T> type; };
@@ -493,6 +507,86 @@ static void wide_policy(const char* pn, pplv::Rng& rng, long count) {
   }
 }
 
+// ---- bounded builds: straight-line coefficient computations vs mpz_class ------------------------
+//   prog <id> <T> <k> <instr>*k | <r0 r1 r2 r3 initial> | B ok|exc:<class>:<index> <r0..r3> | U <r0..r3>
+// instr = name:d:a:b.  The bounded run uses Checked_Number<T, BICT_Policy> through the public
+// operators / *_assign functions (each hands its Result to handle_result); the unbounded run uses
+// mpz_class.  After an exception both runs stop (registers as they were before the instruction).
+static const char* PNAMES[] = { "neg", "abs", "add", "sub", "mul", "addMul", "subMul", "div", "rem", "gcd", "lcm" };
+template <typename T>
+static void prog_case(pplv::Rng& rng) {
+  typedef Checked_Number<T, BICT_Policy> N;
+  const int NR = 4;
+  N b[NR]; mpz_class u[NR];
+  std::string init;
+  for (int i = 0; i < NR; ++i) {
+    T v;
+    switch (rng.below(5)) {
+    case 0: v = (T) ((int) rng.below(7) - 3); break;
+    case 1: v = (T) ((int) rng.below(41) - 20); break;
+    case 2: { int k = 1 + (int) rng.below(sizeof(T) * 4); v = (T) (rng.next() & ((((uint64_t) 1) << k) - 1)); if (rng.chance(1, 2)) v = (T) -v; break; }
+    case 3: v = pick<T>(rng, 0); break;
+    default: v = (T) ((int) rng.below(200) - 100); break;
+    }
+    b[i].raw_value() = v;
+    u[i] = mpz_class(std::to_string((long long) v));
+    init += " " + dec(v);
+  }
+  int len = 1 + (int) rng.below(10);
+  std::string instrs, outcome = "ok";
+  int k = 0;
+  for (; k < len; ++k) {
+    int op = (int) rng.below(11), d = (int) rng.below(NR), a = (int) rng.below(NR), c = (int) rng.below(NR);
+    if ((op == 7 || op == 8) && u[c] == 0) op = 2;      // division by zero is a trap in both configurations
+    instrs += std::string(" ") + PNAMES[op] + ":" + std::to_string(d) + ":" + std::to_string(a) + ":" + std::to_string(c);
+    try {
+      switch (op) {
+      case 0: neg_assign(b[d], b[a]); break;
+      case 1: abs_assign(b[d], b[a]); break;
+      case 2: b[d] = b[a] + b[c]; break;
+      case 3: b[d] = b[a] - b[c]; break;
+      case 4: b[d] = b[a] * b[c]; break;
+      case 5: add_mul_assign(b[d], b[a], b[c]); break;
+      case 6: sub_mul_assign(b[d], b[a], b[c]); break;
+      case 7: b[d] = b[a] / b[c]; break;
+      case 8: b[d] = b[a] % b[c]; break;
+      case 9: gcd_assign(b[d], b[a], b[c]); break;
+      default: lcm_assign(b[d], b[a], b[c]); break;
+      }
+    }
+    catch (...) { outcome = "exc:" + pplv::exc_class() + ":" + std::to_string(k); ++k; break; }
+    switch (op) {
+    case 0: u[d] = -u[a]; break;
+    case 1: u[d] = abs(u[a]); break;
+    case 2: u[d] = u[a] + u[c]; break;
+    case 3: u[d] = u[a] - u[c]; break;
+    case 4: u[d] = u[a] * u[c]; break;
+    case 5: u[d] += u[a] * u[c]; break;
+    case 6: u[d] -= u[a] * u[c]; break;
+    case 7: u[d] = u[a] / u[c]; break;
+    case 8: u[d] = u[a] % u[c]; break;
+    case 9: { mpz_class g; mpz_gcd(g.get_mpz_t(), u[a].get_mpz_t(), u[c].get_mpz_t()); u[d] = g; break; }
+    default: { mpz_class g; mpz_lcm(g.get_mpz_t(), u[a].get_mpz_t(), u[c].get_mpz_t()); u[d] = g; break; }
+    }
+  }
+  std::string line = "prog " + std::to_string(++g_id) + " " + TName<T>::name() + " " + std::to_string(k) + instrs + " |" + init + " | B " + outcome;
+  for (int i = 0; i < NR; ++i) line += " " + dec(b[i].raw_value());
+  line += " | U";
+  for (int i = 0; i < NR; ++i) line += " " + u[i].get_str();
+  out(line);
+}
+
+static void prog(pplv::Rng& rng, long count) {
+  for (long i = 0; i < count; ++i) {
+    switch (rng.below(4)) {
+    case 0: prog_case<int8_t>(rng); break;
+    case 1: prog_case<int16_t>(rng); break;
+    case 2: prog_case<int32_t>(rng); break;
+    default: prog_case<int64_t>(rng); break;
+    }
+  }
+}
+
 // ---- configuration -------------------------------------------------------------------------
 template <typename T> static void cfg_type() {
   typedef Checked::Larger<T> L;
@@ -602,6 +696,9 @@ int main(int argc, char** argv) {
     flush_buf(); return 0;
   }
   cfg(); flush_buf();
+  if (mode == "prog") {
+    return pplv::run_batches(0, 1, [&](long) { g_id = 900000000L; pplv::Rng rng((uint64_t) (seed * 77 + 5)); prog(rng, count); flush_buf(); }, 600);
+  }
   std::vector<std::string> ps;
   for (const char* p : POLICIES) if (policy == "all" || policy == p) ps.push_back(p);
   // one forked child per policy: a trap inside the library is attributed and does not kill the run
